@@ -119,3 +119,37 @@ def soak(r, accts, n):
             x = r.choice(good)
             cops.append((0, prop_op(name(x), 2 + r.below(len(cops) // 4 + 3), r.below(4))))
     return cops
+
+
+def cross_soak(r, accts, n, kind=None):
+    """victims with high watermarks are asked again and again for what they already signed (other roots) while other
+    keys with low watermarks advance: whatever lets one key's request see another key's record shows as a second
+    signature at a signed slot / target.  -> (prefix ops run sequentially first, concurrent ops)"""
+    good = [a for a in accts if a.unlockable and a.wallet == "Wallet 1"]
+    kind = kind or r.choice(["prop", "att", "mixed"])
+    victims = r.shuffle(good)[:1 + r.below(2)]
+    others = [a for a in good if a not in victims] or good
+    prefix = []
+    HI = 1000000
+    for v in victims:
+        prefix.append(prop_op(name(v), HI, 0))
+        prefix.append(att_op(name(v), HI - 1, HI, 0))
+    lo = {a.pk: 2 for a in others}
+    cops = []
+    for _ in range(n):
+        if r.chance(0.4):
+            v = r.choice(victims)
+            adr = r.choice([name(v), key(v)])
+            if kind == "prop" or (kind == "mixed" and r.chance(0.5)):
+                cops.append((0, prop_op(adr, r.choice([HI, HI, HI - 1, 5]), 1 + r.below(3))))
+            else:
+                cops.append((0, r.choice([att_op(adr, HI - 1, HI, 1 + r.below(3)), att_op(adr, HI - 2, HI + 1, 1), att_op(adr, 3, HI, 2)])))
+        else:
+            o = r.choice(others)
+            lo[o.pk] += 1
+            adr = r.choice([name(o), key(o)])
+            if kind == "prop" or (kind == "mixed" and r.chance(0.5)):
+                cops.append((0, prop_op(adr, lo[o.pk], r.below(4))))
+            else:
+                cops.append((0, att_op(adr, 1, lo[o.pk], r.below(4))))
+    return prefix, cops
